@@ -87,6 +87,11 @@ def check_covariance(sd, bad, tag, counters):
             bad(f"{tag}:covariance-one-sample-not-nan", {})
         return
     finite_cols = np.all(np.isfinite(samples), axis=0)
+    # the error is the root of the reported covariance's diagonal everywhere, also where samples are not finite
+    with np.errstate(all="ignore"):
+        root = np.sqrt(np.diag(cov))
+    if err.shape != root.shape or not np.array_equal(np.isnan(err), np.isnan(root)) or not np.array_equal(np.isinf(err), np.isinf(root)):
+        bad(f"{tag}:error-not-sqrt-diag:non-finite-pattern", dict(error=np.asarray(err).tolist(), sqrt_diag=root.tolist()))
     if not finite_cols.any():
         return
     want = jack.jackknife_cov(samples[:, finite_cols])
